@@ -150,6 +150,30 @@ def run(ctx):
     gjobs.append({"id": len(gjobs), "files": {"f": [["id", "a"], ["r1", "1"], ["r2", "2"]]},
                   "groups": {"g": ['~id: m0~ $[*][ push("s", line_number()) ]', '~id: m1 run-mode: no-run~ $[*][ push("s", line_number()) ]']},
                   "runs": [{"method": "collect_paths", "pathsname": "g", "filename": "f", "new_instance": True}], "inspect": agg_inspect})
+    # fail_all() executed by a member of a group (serial run, the member comes last so that no other member is touched):
+    # it fails the member that executes it, hence the group
+    fa_jobs = []
+    for k in range(12 if quick else 150):
+        n = rng.choice([1, 2, 3])
+        nrec = rng.randrange(3, 7)
+        line = rng.randrange(0, nrec)
+        ms = [f'~id: m{j}~ $[*][ push("s", line_number()) ]' for j in range(n - 1)] + [f'~id: m{n - 1}~ $[*][ push("s", line_number()) eq(line_number(), {line}) -> fail_all() ]']
+        fa_jobs.append({"id": 100000 + k, "files": {"f": [["id", "a"]] + [[f"r{j}", str(j)] for j in range(1, nrec)]}, "groups": {"g": ms},
+                        "runs": [{"method": rng.choice(["collect_paths", "fast_forward_paths", "next_paths"]), "pathsname": "g", "filename": "f", "new_instance": True}],
+                        "inspect": agg_inspect})
+    fa_res = pmap(ctx, groups.run_history, fa_jobs, chunksize=2)
+    fa_fail = []
+    for j, r in zip(fa_jobs, fa_res):
+        o = (r.get("runs") or [None])[0]
+        if r["setup_exc"] or not o or o["exc"] or not o["members"]:
+            fa_fail.append({"group": j["groups"]["g"], "rows": j["files"]["f"], "problem": "the run raised", "impl": {"setup": r["setup_exc"], "exc": o and o["exc"]}})
+            continue
+        last = o["members"][-1]
+        others = o["members"][:-1]
+        if last["is_valid"] or o["rm_is_valid"] or o["inspect"].get("manifest_all_valid") or any(not m["is_valid"] for m in others):
+            fa_fail.append({"group": j["groups"]["g"], "rows": j["files"]["f"], "method": o["method"],
+                            "problem": "fail_all() executed by the last member: that member must be invalid, the earlier ones valid, the group invalid",
+                            "members_valid": [m["is_valid"] for m in o["members"]], "results_manager_is_valid": o["rm_is_valid"], "manifest_all_valid": o["inspect"].get("manifest_all_valid")})
     gres = pmap(ctx, groups.run_history, gjobs, chunksize=4)
     alits, aidx = [], []
     for gi, (j, r) in enumerate(zip(gjobs, gres)):
@@ -178,6 +202,8 @@ def run(ctx):
     if spec_bad:
         ctx.violation("verdict", {"what": "is_valid differs from 'False exactly when a fail()/fail_and_stop() executed' (model's fail events for this program and file)",
                                   "case": fcase(spec_bad[0]), "more": [fcase(i) for i in spec_bad[1:4]]})
+    if fa_fail:
+        ctx.violation("fail-all", {"what": "a fail_all() that executes does not fail the member that executes it (and with it the group)", "case": fa_fail[0], "failures": len(fa_fail)})
     if efail:
         j, o = efail[0]
         ctx.violation("error-fail", {"what": "an error turns the verdict False iff the policy / validation-mode says 'fail'",
@@ -197,7 +223,7 @@ def run(ctx):
         ctx.violation("correspondence", {"what": "correspondence Match/Ctl.v / Mgr/Aggregate.v vs the implementation no longer checks (Harness/C04Cmp); theorems C04_* are about the model only",
                                          "disagreeing_case": case}, no_input=True)
     ctx.coverage.update({
-        "evaluations": len(jobs) + len(ejobs) + len(gjobs),
+        "fail_all_groups": len(fa_jobs), "evaluations": len(jobs) + len(ejobs) + len(gjobs) + len(fa_jobs),
         "distinct_nontrivial": len({repr(j[:4]) for j, o in zip(jobs, res) if not o["exc"] and o.get("valid") is False}) + sum(1 for k, gi in enumerate(aidx) if not gres[gi]["runs"][0]["rm_is_valid"]),
         "rule": "A: fail()/fail_and_stop() in 9 conditional/unconditional forms at every position among 1-3 pushing components, firing line 0..5, 70% with a valid()/failed() probe, 25% with a "
                 "skip()/stop() that may pre-empt the fail, random scan window / file with blanks / return mode; B: errors of 3 kinds under every policy without raise/quiet, with and without "
